@@ -209,6 +209,8 @@ class Repo:
         """Resolved repo base classes, in MRO-ish (left to right, depth first) order."""
         out = []
         for b in cls.bases:
+            if isinstance(b, ast.Subscript):   # Generic[...] style base: DataAdapter[A, B, C, D]
+                b = b.value
             q = self.qualify(module, b)
             if q is None:
                 continue
